@@ -155,10 +155,11 @@ def run(chk, opts):
     cases = []
     for k, c in enumerate(cfgs):
         # every config: float64 + two rotating dtypes; every 7th (and all of order <= 2): all dtypes, layouts, bool
-        full = thorough or k % 7 == 0 or len(c["shape"]) <= 2
-        dts = DTYPES if full else ["float64", DTYPES[k % len(DTYPES)], DTYPES[(k * 5 + 3) % len(DTYPES)]]
+        high = len(c["shape"]) >= 7           # the 2 x 2 x ... x 2 family: 512+ entries, wide dtypes only
+        full = (thorough or k % 7 == 0 or len(c["shape"]) <= 2) and not high
+        dts = ["float64", "int64", "int32", "complex128"][: 2 + k % 3] if high else DTYPES if full else ["float64", DTYPES[k % len(DTYPES)], DTYPES[(k * 5 + 3) % len(DTYPES)]]
         forms = sorted(INTFORMS) if full else [sorted(INTFORMS)[k % len(INTFORMS)]]
-        cases.append({"id": "C01/%06d" % k, "cfg": c, "dtypes": sorted(set(dts)), "layouts": full, "intforms": forms,
+        cases.append({"id": "C01/%06d" % k, "cfg": c, "dtypes": sorted(set(dts)), "layouts": full or (high and k % 3 == 0), "intforms": forms,
                       "bool": full and int(np.prod(c["shape"])) <= 36})
     chk.add_cases(cases)
     events = execute_cases(execute, cases, repo=chk.repo)
